@@ -559,3 +559,59 @@ def run_pipeline_correspondence(rep, cases, name="pipeline (text -> outcome)"):
     rep.extra.setdefault("correspondence", {})[name] = {"requests": len(cases), "disagreements": len(bad), **stats}
     rep.obligation(f"corr:{name} (outcome class of the whole pipeline equal on {len(cases)} texts)", not bad, str(bad[:2])[:600] if bad else "")
     return bad
+
+
+# ---------------------------------------------------------------- get_lines (C12)
+def _getlines_case(src: str, nums_lists):
+    """Both modes of the REAL Tokenizer.get_lines on the same content: [(request line, expected answer)]."""
+    import io
+    import tempfile
+
+    from peg_parser.tokenizer import Tokenizer
+
+    lines = io.StringIO(src).readlines()
+    out = []
+    fd, tmp = tempfile.mkstemp(suffix=".xsh", prefix="xv_gl_")
+    try:
+        with os.fdopen(fd, "w", encoding="utf-8", newline="") as fh:
+            fh.write(src)
+        for nums in nums_lists:
+            tf = Tokenizer(iter(()), path=tmp)
+            ts = Tokenizer(iter(()))
+            ts._lines = dict(enumerate(io.StringIO(src).readlines(), 1))  # what parse_string does before parsing
+            for mode, t in (("file", tf), ("string", ts)):
+                try:
+                    got = ";".join(enc_str(x) for x in t.get_lines(list(nums)))
+                except Exception as e:  # noqa: BLE001
+                    got = f"raised {type(e).__name__}"
+                req = f"getlines {mode} {':'.join(str(n) for n in nums) or '-'} " + " ".join(enc_str(ln) for ln in lines)
+                out.append((req.rstrip(), got))
+    finally:
+        try:
+            os.unlink(tmp)
+        except OSError:
+            pass
+    return out
+
+
+def run_getlines_correspondence(rep, srcs, rng_):
+    """`Tokenizer.get_lines` in file mode and in string mode vs the Lean model of both (theorem getLines_file_eq_string
+    is about the model): the returned texts must be equal for every request."""
+    if not DRIVER.exists():
+        rep.obligation("corr:get_lines", False, "driver not built")
+        return []
+    args = []
+    for s in srcs:
+        if not s or "\r" in s:
+            continue
+        n = s.count("\n") + 1
+        lists = [list(range(a, b + 1)) for a, b in [(1, 1), (1, min(n, 3)), (max(1, n - 1), n), (n, n + 1), (2, 2)]]
+        lists += [[0], [n + 2], [1, 1], [min(2, n), 1], [rng_.randint(0, n + 1) for _ in range(rng_.randint(1, 4))], []]
+        args.append((s, lists))
+    res = _pooled("_getlines_case", args, timeout=30)
+    cases = [c for r in res if isinstance(r, list) for c in r]
+    answers = Driver().ask_many([c[0] for c in cases])
+    bad = [{"request": c[0][:200], "implementation": c[1][:200], "model": a[:200]} for c, a in zip(cases, answers) if c[1] != a]
+    rep.extra.setdefault("correspondence", {})["get_lines"] = {"requests": len(cases), "disagreements": len(bad)}
+    rep.obligation(f"corr:get_lines (file mode and string mode of Tokenizer.get_lines equal to the model on {len(cases)} requests)", not bad, str(bad[:2])[:600] if bad else "")
+    return bad
